@@ -115,7 +115,23 @@ static void run_repro(Json& js, vh::Rng& rng, int smax, int reps) {
             }
         }
     }
-    // a fresh thread without any seeding behaves as seed 0
+    // a fresh thread without any seeding behaves as seed 0: first the reference (explicit rng(0)), then unseeded threads
+    // started while other threads have been seeded with something else
+    {
+        const int tid = next_tid++;
+        js.begin("Thread").num("tid", tid).end();
+        std::thread th([&] {
+            dsplib::rng(0);
+            js.begin("Seed").num("tid", tid).num("seed", 0).end();
+            vh::Rng sc(77);
+            for (int i = 0; i < 4; ++i) {
+                random_call(js, sc, tid);
+            }
+        });
+        th.join();
+    }
+    dsplib::rng(4242);   // the main thread's seed must not leak into new threads
+    js.begin("Seed").num("tid", 0).num("seed", 4242).end();
     for (int q = 0; q < 4; ++q) {
         const int tid = next_tid++;
         js.begin("Thread").num("tid", tid).end();
